@@ -9,6 +9,7 @@ import (
 )
 
 func init() {
+	vfRegister("VfC06_cascade8", VfC06_cascade8)
 	vfRegister("VfC06_heldAcrossElection", VfC06_heldAcrossElection)
 	vfRegister("VfC06_doModify", VfC06_doModify)
 	vfRegister("VfC06_handover", VfC06_handover)
@@ -261,6 +262,43 @@ func VfC06_heldAcrossElection() {
 	vfAssert(n11 == 1, "C06:resolving-operation-acknowledged-once")
 	vfAssert(n10 == 1, "C06:held-operation-answered-once-when-it-becomes-resolvable")
 	vfAssert(nfail == 0, "C06:nothing-failed")
+	vfAssert(len(s.masterRIB.VfPendingIDs()) == 0, "C06:nothing-left-held")
+	vfReach("end")
+}
+
+// VfC06_cascade8: ONE operation resolves NINE held ones (eight IPv4 entries and the group they wait for, itself
+// waiting for a next-hop), FIB-ack on/off: 10 operations, up to 20 results in one answer - every id exactly once
+// per status, RIB_PROGRAMMED before FIB_PROGRAMMED for every id, nothing left held.
+func VfC06_cascade8() {
+	s, id := vfPrimaryServer()
+	fib := vfBool("fib-ack")
+	s.cs["A"].params.FIBAck = fib
+	nh := vfU64("nh")
+	vfAssume(nh != 0)
+	vfAssume(nh != 1)
+	send := func(ops ...*spb.AFTOperation) ([]*spb.AFTResult, int) {
+		resCh, errCh := make(chan *spb.ModifyResponse, 256), make(chan error, 16)
+		s.doModify("A", ops, resCh, errCh)
+		return vfDrain(resCh, errCh)
+	}
+	var held []uint64
+	r0, e0 := send(vfNHGOp(10, DefaultNetworkInstanceName, 50, nh, id))
+	held = append(held, 10)
+	pfx := []string{"10.0.0.1/32", "10.0.0.2/32", "10.0.0.3/32", "10.0.0.4/32", "10.0.0.5/32", "10.0.0.6/32", "10.0.0.7/32", "10.0.0.8/32"}
+	n := len(r0)
+	for i, p := range pfx {
+		r, e := send(vfV4Op(uint64(20+i), DefaultNetworkInstanceName, p, 50, id))
+		n += len(r) + e
+		held = append(held, uint64(20+i))
+	}
+	vfAssert(n == 0 && e0 == 0, "C06:operation-with-a-missing-reference-is-held-not-answered")
+	res, nerr := send(vfNHOp(11, DefaultNetworkInstanceName, nh, id))
+	vfCheckAnswers(res, nerr, []uint64{11}, held, nil, fib)
+	want := 10
+	if fib {
+		want = 20
+	}
+	vfAssert(len(res) == want, "C06:every-resolved-operation-answered-in-the-same-call")
 	vfAssert(len(s.masterRIB.VfPendingIDs()) == 0, "C06:nothing-left-held")
 	vfReach("end")
 }
